@@ -1,45 +1,79 @@
 #!/usr/bin/env python3
-"""tools/mut.py <mutant> [ID ...] [--tier quick] : apply a mutant to /repo, run checks, revert."""
-import os, subprocess, sys, time
+"""tools/mut.py [--tier=quick] [--jobs=N] all | <mutant> [ID ...]
+Applies hand-written mutants (mutants/mutants.py) to scratch worktrees of /repo (never to /repo itself), runs the
+named checks from a scratch worktree of /verif pointed at that copy (VERIF_REPO), and reports which checks fail.
+Results: /verif/mutants/results.json."""
+import json, os, shutil, subprocess, sys, time
+from concurrent.futures import ThreadPoolExecutor
 ROOT = os.path.dirname(os.path.dirname(os.path.abspath(__file__)))
 sys.path.insert(0, os.path.join(ROOT, "mutants"))
 from mutants import M
 args = [a for a in sys.argv[1:] if not a.startswith("--")]
-tier = "quick"
+tier, jobs = "quick", 3
 for a in sys.argv[1:]:
     if a.startswith("--tier="):
         tier = a.split("=")[1]
+    if a.startswith("--jobs="):
+        jobs = int(a.split("=")[1])
 if args and args[0] == "all":
-    names = list(M)
-    ids_override = None
+    work = [(n, p) for n, (props, _, _, _) in M.items() for p in props]
 else:
-    names = [args[0]]
-    ids_override = args[1:] or None
-st = subprocess.run(["git", "-C", "/repo", "status", "--porcelain", "--untracked-files=no"], capture_output=True, text=True).stdout
-if st.strip():
-    print("refusing: /repo has uncommitted changes\n" + st)
-    sys.exit(2)
-res = []
-for name in names:
-    props, file, old, new = M[name]
-    path = os.path.join("/repo", file)
-    src = open(path).read()
-    if src.count(old) != 1:
-        print("MUTANT %s: pattern occurs %d times in %s" % (name, src.count(old), file))
-        res.append((name, "?", "pattern"))
-        continue
+    work = [(args[0], p) for p in (args[1:] or M[args[0]][0])]
+BASE = "/tmp/mutw"
+
+
+def setup(i):
+    r, v = "%s/repo%d" % (BASE, i), "%s/verif%d" % (BASE, i)
+    for d, src in ((r, "/repo"), (v, "/verif")):
+        subprocess.run(["git", "-C", src, "worktree", "remove", "--force", d], capture_output=True)
+        shutil.rmtree(d, ignore_errors=True)
+        subprocess.run(["git", "-C", src, "worktree", "add", "--detach", d, "HEAD", "-q"], check=True)
+    return r, v
+
+
+def teardown(i):
+    for d, src in (("%s/repo%d" % (BASE, i), "/repo"), ("%s/verif%d" % (BASE, i), "/verif")):
+        subprocess.run(["git", "-C", src, "worktree", "remove", "--force", d], capture_output=True)
+        shutil.rmtree(d, ignore_errors=True)
+
+
+def worker(i, items):
+    out = []
+    r, v = setup(i)
     try:
-        open(path, "w").write(src.replace(old, new))
-        for pid in (ids_override or props):
-            t0 = time.time()
-            env = dict(os.environ, VERIF_REPLAY_DIR="/tmp/verif-mut-replays", VERIF_EVIDENCE_DIR="/tmp/verif-mut-evidence")
-            p = subprocess.run([os.path.join(ROOT, "check"), pid, "--tier", tier], capture_output=True, text=True, cwd=ROOT, env=env)
-            last = [l for l in p.stdout.splitlines() if l.startswith("VIOLATION") or l.startswith("  signature")][:2]
-            print("MUTANT %-28s %s rc=%d %.0fs %s" % (name, pid, p.returncode, time.time() - t0, " | ".join(last)))
-            res.append((name, pid, p.returncode))
-            if p.returncode not in (0, 1):
-                print(p.stdout[-1500:])
+        for name, pid in items:
+            props, file, old, new = M[name]
+            path = os.path.join(r, file)
+            src = open(path).read()
+            if src.count(old) != 1:
+                out.append(dict(mutant=name, check=pid, rc="pattern"))
+                print("MUTANT %-32s %s pattern occurs %d times" % (name, pid, src.count(old)), flush=True)
+                continue
+            open(path, "w").write(src.replace(old, new))
+            try:
+                env = dict(os.environ, VERIF_REPO=r, VERIF_REPLAY_DIR="%s/replays%d" % (BASE, i), VERIF_EVIDENCE_DIR="%s/evidence%d" % (BASE, i))
+                t0 = time.time()
+                p = subprocess.run([os.path.join(v, "check"), pid, "--tier", tier], capture_output=True, text=True, cwd=v, env=env)
+                sig = [l.strip()[11:] for l in p.stdout.splitlines() if l.strip().startswith("signature:")]
+                print("MUTANT %-32s %s rc=%d %.0fs %s" % (name, pid, p.returncode, time.time() - t0, sig[:2]), flush=True)
+                if p.returncode not in (0, 1):
+                    print(p.stdout[-800:], flush=True)
+                out.append(dict(mutant=name, check=pid, rc=p.returncode, secs=round(time.time() - t0), sig=sig[:2]))
+            finally:
+                open(path, "w").write(src)
     finally:
-        subprocess.run(["git", "-C", "/repo", "checkout", "--", "."])
-missed = [r for r in res if r[2] != 1]
-print("missed:", missed)
+        teardown(i)
+    return out
+
+
+os.makedirs(BASE, exist_ok=True)
+chunks = [work[i::jobs] for i in range(jobs)]
+res = []
+with ThreadPoolExecutor(jobs) as ex:
+    for r in ex.map(lambda a: worker(*a), [(i, c) for i, c in enumerate(chunks) if c]):
+        res += r
+missed = [(r["mutant"], r["check"], r["rc"]) for r in res if r["rc"] != 1]
+print("run:", len(res), "caught:", len(res) - len(missed), "not caught:", missed)
+if args and args[0] == "all":
+    json.dump(dict(tier=tier, head=subprocess.run(["git", "-C", "/repo", "rev-parse", "--short", "HEAD"], capture_output=True, text=True).stdout.strip(),
+                   results=sorted(res, key=lambda r: (r["mutant"], r["check"]))), open(os.path.join(ROOT, "mutants", "results.json"), "w"), indent=1)
